@@ -24,5 +24,6 @@ RULES = [
     ("C08.del", lambda c, r: lfht.rule_del(c, r, "C08.del")),
     ("C08.iter", lambda c, r: lfht.rule_iter(c, r, "C08.iter")),
     ("C08.bounds", lambda c, r: c09.rule_pow2(c, r, "C08")),
+    ("C08.emptywalk", lambda c, r: lfht.rule_emptywalk(c, r, "C08.emptywalk")),
 ]
 FLOORS = {}
